@@ -11,13 +11,13 @@ NOTE_COMMON = ("Trusted: Lean 4.33 kernel; axioms limited to propext / Classical
                "instrumented allocator and oracles are unverified Rust. ")
 
 CLAIMS = {
-    "C01": ("Graph theorem T1 (collector's reclaim list is closed under predecessors, has no external/untraced reference; reachable objects are never candidates) proved for all heaps; glue lemma: the machine's fault-free collection pass computes exactly that list. Machine-level invariants I1-I3 that discharge T1's hypotheses for every reachable world are not yet proved: they are validated by the correspondence (white-box rc/tc/mark/buffer compared after every op) and by the C04 count oracle.",
-            "Lean proof (T1 graph theorem, unbounded) + model/impl correspondence with UAF/canary/allocator oracles"),
+    "C01": ("Proved end to end at the level of collection passes, for every reachable world of the machine (any programs, callbacks, nested collections, injected panics and their unwinding): the global invariants Counts (count >= existing pointers), Inv (marks = lists, buffered => tracing counter 0, freed => no count/mark) and Flags hold in every reachable world and discharge the hypotheses of graph theorem T1, so whatever a pass selects is referenced by no table entry, stashed clone, frame temporary, untraced field or dead value's field (reachable_pass_candidates_unreferenced), nothing reachable from the program through any chain of traced/untraced fields is ever selected (reachable_object_not_candidate), and no existing pointer ever targets a freed box (no_dangling_pointer). Not yet proved: that the *value* behind every program-reachable pointer is intact after caught panics (isolation of a half-destroyed garbage set, DESIGN.md §10); decided per run by the canary/reachability oracles and the correspondence.",
+            "Lean proof (global machine invariants by induction over all micro-steps + T1 graph theorem, unbounded) + model/impl correspondence with UAF/canary/allocator oracles"),
     "C02": ("Graph theorem T2 (per-pass completeness + queues drain with fuel = #objects) proved for all heaps. History-level coverage invariant I10 not yet proved; checked per run by the model-independent leak oracle after quiescent collections and by the correspondence of freed sets / allocated_bytes.",
             "Lean proof (T2 completeness, termination) + correspondence + leak oracle"),
-    "C03": ("Step-level theorems on every release site (one free event, value marked dead before fields are released, free after drop, new_cyclic guard emits no drop). History-level 'at most once' (I8) not yet an inductive theorem: decided per run by allocator oracle (double free, layout mismatch, callback on dead value) and correspondence of ordered drop/free events.",
-            "Lean step theorems + correspondence + allocator oracle"),
-    "C04": ("Global invariant proved for every reachable world of the machine (any programs, callbacks, collections, injected panics, unwinding): the count of every live box is >= the number of Cc pointers to it that exist (count_never_too_low, by induction over all operations, frame steps and unwinding steps); a box with count 0 has no pointer to it. Step-level theorems for clone/drop on the count (exactly +1/-1, last owner destroys in the same step whether buffered or not, listed objects only decremented). The upper half (count not above the pointers in panic-free histories) is not yet proved: decided per run by the harness count oracle (enumerates every Cc) and correspondence of strong_count after every op.",
+    "C03": ("Proved for every reachable world: a box is released only while it exists, exactly one free event per release, a freed identity stays freed (so every allocation is released at most once in any history), nothing that exists points to a released box; allocated bytes go down by exactly the box size. Step-level theorems on every release site (value marked dead before its fields are released, free after drop, new_cyclic guard emits no drop). Not yet proved as a history theorem: 'each value dropped at most once' after caught panics (needs the isolation invariant, DESIGN.md §10); decided per run by the allocator oracle (double free, layout mismatch, callback on dead value) and the correspondence of ordered drop/free events.",
+            "Lean proof (free-at-most-once over all histories, step theorems) + correspondence + allocator oracle + layout grid"),
+    "C04": ("Global invariant proved for every reachable world of the machine (any programs, callbacks, collections, injected panics, unwinding): the count of every box is >= the number of Cc pointers to it that exist (count_never_too_low); a box with count 0 / a freed box has no pointer to it; no pointer targets a freed box; a destroyed object is unreachable. Step-level theorems for clone/drop on the count (exactly +1/-1, last owner destroys in the same step whether buffered or not, listed objects only decremented). The upper half (count not above the pointers in panic-free histories) is decided per run by the harness count oracle (enumerates every Cc) and correspondence of strong_count after every op.",
             "Lean step theorems + correspondence + count oracle"),
     "C05": ("Step-level theorems: finalized flag set before the call, pass skips finalized members, a pass that finalized re-buffers and drops nothing, objects created while finalizing are born finalized, no finalizer frames without the feature. 'Only on garbage' is C01's T1. Ordering over whole histories checked per run (ordered F/D events, neighbour-canary oracle inside finalizers).",
             "Lean step theorems + T1 + correspondence + finalizer oracle"),
@@ -27,15 +27,15 @@ CLAIMS = {
             "Lean inductive invariant over all micro-steps incl. unwinding + fault-injection correspondence"),
     "C08": ("strong_count/upgrade specification proved (alive <-> success, same allocation), Weak::new never upgrades, every member of a garbage set is marked dropped before its first destructor, weak drops are invisible to the collector's input. Access-safety over histories checked per run (canary of every upgraded value).",
             "Lean theorems on upgrade semantics + correspondence + canary oracle"),
-    "C09": ("Side-record life cycle lemmas (creation, exact -1 on Weak drop, release exactly when last Weak goes and allocation is gone, hand-over when the allocation goes first). Global count exactness I7 checked per run (weak_count/strong_count of every table entry after every op, metaFree events, allocator).",
-            "Lean step theorems + correspondence"),
+    "C09": ("Proved for every reachable world: weak_count is never below the number of existing Weak pointers, a Weak's side record is live as long as any Weak to it exists, an accessible record is live, a record is released as soon as both the allocation's hold and the last Weak are gone (WeakOk invariant by induction over all micro-steps). Step lemmas: creation, exact -1 on Weak drop, hand-over when the allocation goes first. Exactness (=) in panic-free histories checked per run (weak_count/strong_count of every table entry after every op, metaFree events, allocator).",
+            "Lean proof (weak-count invariant over all micro-steps) + correspondence"),
     "C10": ("Slot emptied before the action's script is entered on both paths; Cleanable drop only drops a Weak; clean after destruction is a no-op. 'Exactly once by the time the Cleaner is gone' checked per run (ordered action events).",
             "Lean step theorems + correspondence"),
-    "C11": ("Buffer invariant I2 preserved by add_to_list/remove_from_list with exact size change; byte and execution counters per step. Global statement checked per run by model-independent oracles (allocator sum vs allocated_bytes, buffer walk vs cached size, link integrity, marks).",
-            "Lean lemmas on buffer/counters + correspondence + buffer-walk oracle"),
+    "C11": ("Proved for every reachable world: allocated_bytes() equals the total size of the boxes that exist (BytesOk), buffered_objects_count() is the length of a duplicate-free buffer whose members are exactly the PossibleCycles-marked live boxes (buffer_exact, from Inv). Step lemmas: add_to_list/remove_from_list exact size change; clone leaves the buffer; executions +1 per started collection. Checked per run by model-independent oracles (allocator sum vs allocated_bytes, buffer walk vs cached size, link integrity, marks).",
+            "Lean proof (bytes and buffer invariants over all micro-steps) + correspondence + buffer-walk oracle"),
     "C12": ("is_tracing characterisation, collect clears finalizing/dropping (trace always sees is_tracing), nested collect and auto-collect are no-ops while collecting, try_unwrap Err / finalize_again panic in callbacks, and (from I6, proved globally) is_tracing false when idle.",
             "Lean theorems + global flags invariant + correspondence"),
-    "C13": ("try_unwrap case analysis proved: Err with unchanged world iff not unique (or in a callback), Ok world characterised (box released, value not in box, leaves buffer given I2, only free/metaFree events, no finalizer/destructor).",
+    "C13": ("try_unwrap case analysis proved: Err with unchanged world iff not unique (or in a callback); Ok world characterised (box released, value not in box, leaves the buffer, only free/metaFree events, no finalizer/destructor) - with the buffer invariant it needs proved for every reachable world (unwrapped_spec_reachable), and a unique pointer's target is owned by no collector list (unique_not_owned).",
             "Lean theorems on the try_unwrap step + correspondence + allocator oracle"),
     "C14": ("Closure-entry state (0 strong, 1 weak, uninitialised), Weak dead while strong count is 0, after return rc=1 and initialised, panic guard releases the box without any drop event and makes the side record inaccessible.",
             "Lean theorems on new_cyclic frames + correspondence + fault injection in closure"),
